@@ -745,6 +745,15 @@ class _ModelNS:
     def __init__(self, name):
         object.__setattr__(self, "_ns_name", name)
 
+    def __setattr__(self, attr, value):
+        import types as _t
+
+        from .ctx import guard_signature
+
+        if isinstance(value, (_t.FunctionType, _t.LambdaType)) and not attr.startswith("_"):
+            value = guard_signature(value, "%s.%s" % (object.__getattribute__(self, "_ns_name"), attr))
+        object.__setattr__(self, attr, value)
+
     def __getattr__(self, attr):
         if attr.startswith("__"):
             raise AttributeError(attr)
@@ -782,7 +791,17 @@ def _ufunc2(op):
     return f
 
 
-def np_logical_not(a):
+def np_logical_not(a, out=None):
+    if out is not None:
+        # in-place form: the result is written into `out` (a plain bool array of the same length)
+        if not isinstance(out, Arr) or isinstance(a, MArr) or out.kind != "b":
+            raise Unsupported("np.logical_not(..., out=%r)" % (type(out),))
+        r = np_logical_not(a)
+        if not M._same_len(r.n, out.n):
+            raise ValueError("operands could not be broadcast together")
+        g = r.getter()
+        out.write(lambda i: True, lambda i: g(i))
+        return out
     if isinstance(a, MArr):
         d = a._data
         if d.kind != "b":
@@ -867,6 +886,28 @@ def build_np():
     np.isfinite = np_isfinite
     np.minimum = np_minimum
     np.concatenate = np_concatenate
+
+    def np_reshape(a, shape):
+        if not isinstance(a, (Arr, MArr)):
+            raise Unsupported("np.reshape(%r)" % (type(a),))
+        return a.reshape(shape)
+
+    def np_flatnonzero(a):
+        if isinstance(a, (Arr, MArr)):
+            return a.nonzero()[0]  # 1-D: np.nonzero(np.ravel(a))[0]
+        raise Unsupported("np.flatnonzero(%r)" % (type(a),))
+
+    def np_putmask(a, mask, values):
+        # np.putmask(a, mask, scalar): a[mask] = scalar (array values would be repeated: not modelled)
+        if not M.is_scalar(values) or not isinstance(a, (Arr, MArr)):
+            raise Unsupported("np.putmask pattern")
+        if isinstance(a, MArr):
+            raise Unsupported("np.putmask on a masked array")  # writes the data only, the mask is left alone
+        a[mask] = values
+
+    np.reshape = np_reshape
+    np.flatnonzero = np_flatnonzero
+    np.putmask = np_putmask
     np.maximum = _ufunc2("maximum")
     np.logical_not = np_logical_not
     np.invert = np_logical_not
